@@ -36,20 +36,39 @@ int main() {
 '''
 
 
+PFAFF_MAIN = r'''
+int main() {
+    int n;
+    if (scanf("%d", &n) != 1) return 2;
+    Matrix<double> A(n, n);
+    for (int i = 0; i < n * n; i++) { double x; scanf("%lf", &x); A[i] = x; }
+    double p = pfaffian_cpp<double>(A);
+    printf("%.17g\n", p);
+    return 0;
+}
+'''
+
+
 def program(which="permanent"):
     """AST of the current /repo source (one clang run per filter, cached per process)"""
     if which not in _PROG:
         p = cx.Program(REPO)
-        src = {"permanent": "src/permanent.cpp", "laplace": "src/permanent_laplace.cpp"}[which]
-        for f in ({"permanent": "permanent_cpp", "laplace": "permanent_laplace_cpp"}[which], "binomialCoeff", "n_aryGrayCodeCounter"):
-            p.add(src, f)
+        src = {"permanent": "src/permanent.cpp", "laplace": "src/permanent_laplace.cpp", "pfaffian": "src/pfaffian.cpp"}[which]
+        if which == "pfaffian":
+            p.add(src, "pfaffian_cpp")
+        else:
+            for f in ({"permanent": "permanent_cpp", "laplace": "permanent_laplace_cpp"}[which], "binomialCoeff", "n_aryGrayCodeCounter"):
+                p.add(src, f)
         _PROG[which] = p
     return _PROG[which]
 
 
 def native(which="permanent"):
     if which not in _NATIVE:
-        nat = cx.Native(REPO, ["src/permanent.cpp", "src/permanent_laplace.cpp"], PERM_MAIN, which)
+        if which == "pfaffian":
+            nat = cx.Native(REPO, ["src/pfaffian.cpp"], PFAFF_MAIN, which)
+        else:
+            nat = cx.Native(REPO, ["src/permanent.cpp", "src/permanent_laplace.cpp"], PERM_MAIN, which)
         _NATIVE[which] = nat
         pid = os.getpid()
         atexit.register(lambda: nat.close() if os.getpid() == pid else None)
@@ -58,7 +77,8 @@ def native(which="permanent"):
 
 def fn_refs(prog, names):
     out = []
-    for rel in sorted(prog.sources) + ["src/n_aryGrayCodeCounter.hpp", "src/utils.hpp", "src/matrix.hpp"]:
+    extra = ["src/matrix.hpp"] if "src/pfaffian.cpp" in prog.sources else ["src/n_aryGrayCodeCounter.hpp", "src/utils.hpp", "src/matrix.hpp"]
+    for rel in sorted(prog.sources) + extra:
         out.append(core.file_ref(os.path.join(REPO, rel), names))
     return out
 
@@ -81,6 +101,44 @@ def native_permanent(A, rows, cols, hc, mode="P"):
     elif len(toks) == 2:
         val = complex(float(toks[0]), float(toks[1]))
     return val, ub
+
+
+def native_pfaffian(M):
+    M = numpy.asarray(M, dtype=float)
+    n = M.shape[0]
+    code, out, err = native("pfaffian").run("%d\n%s\n" % (n, " ".join(repr(float(x)) for x in M.flatten())))
+    ub = ""
+    if "runtime error" in err or code != 0:
+        ub = (err.strip().splitlines() or ["exit code %d" % code])[0][-200:]
+    toks = out.split()
+    return (float(toks[0]) if toks else None), ub
+
+
+def interp_pfaffian(env, M):
+    prog = program("pfaffian")
+    fn = prog.find(None, "pfaffian_cpp", 1, pick="double (Matrix<double>")
+    if fn is None:
+        raise xa.HarnessError("pfaffian_cpp<double> not found in src/pfaffian.cpp")
+    it = cx.Interp(prog, env)
+    n = M.shape[0]
+    Am = cx.Mat(n, n, cx.Ptr([M[i, j] for i in range(n) for j in range(n)]))
+    v = it.call(fn, [cx.Ref([Am], 0)])
+    return v, it.ub_events
+
+
+def pfaffian_definition(M, idx=None):
+    """expansion along the first remaining row: sum over perfect matchings with the sign of the pairing"""
+    idx = list(range(M.shape[0])) if idx is None else idx
+    if not idx:
+        return 1
+    i = idx[0]
+    total = 0
+    for pos in range(1, len(idx)):
+        j = idx[pos]
+        rest = idx[1:pos] + idx[pos + 1:]
+        term = M[i, j] * pfaffian_definition(M, rest)
+        total = total + term if pos % 2 == 1 else total - term
+    return total
 
 
 def interp_laplace(env, A, rows, cols, hc, prog=None):
